@@ -17,6 +17,17 @@ def gen(ctx):
             hist.append(('multi', members))
             if ctx.rng.random() < 0.3:
                 hist.append(L.gen_req(ctx.rng, tags, addrs))
+        # the same read twice in one bundle with a write to that tag between them (byte-identical members must still be answered
+        # one after the other); own sub-stream: the generator state is put back so the cases above stay what they were
+        st = ctx.rng.getstate()
+        k = ctx.rng.randrange(len(tags))
+        t = tags[k]
+        cnt = min(t['n'], ctx.rng.randint(1, 4))
+        p = L.gen_path(ctx.rng, tags, addrs, k, None)
+        rd = ctx.rng.choice([('readf', p, cnt, 0), ('read', p, cnt), ('readf', p, cnt, 0)])
+        wr = ('write', p, L.TY[t['ty']], cnt, [L.rand_val(ctx.rng, t['ty']) for _ in range(cnt)])
+        hist.append(('multi', [rd, wr, rd] + ([wr, rd] if ctx.rng.random() < 0.3 else [])))
+        ctx.rng.setstate(st)
         cases.append((ctx.rng.choice([488, 16, 24, 100]), tags, hist))
     return cases
 
